@@ -27,7 +27,10 @@ var iterRe = regexp.MustCompile(`@\d+r(\d+)#\d`)
 var regRe = regexp.MustCompile(`\bt\d+\b`)
 
 // canon strips SSA register numbers that may differ between two functions.
+var derefFieldRe = regexp.MustCompile(`\*&+([A-Za-z_][A-Za-z0-9_]*)\.`)
+
 func canon(s string) string {
+	s = derefFieldRe.ReplaceAllString(s, "$1.")
 	s = iterRe.ReplaceAllString(s, "@$1")
 	s = regRe.ReplaceAllString(s, "t")
 	return s
